@@ -10,8 +10,9 @@ events: the worker exits cleanly (socket closed, path unlinked through the real 
 crashes (stale socket file stays).  Scheduling points: lock acquire/release, probe, unlink, Popen, the worker's
 startup steps, readline (thorough tier: every source line of ``launch``/``gc_state_dir``).
 
-  (once)  no worker is spawned for a command hash while a worker of that hash is alive and listening, and at no
-          step do two live workers exist for one hash;
+  (once)  no worker is spawned for a command hash while a worker of that hash is alive and listening, at no step do
+          two live workers exist for one hash, and nobody unlinks the socket path of a live worker (which would
+          make the next launch spawn a second one);
   (ret)   every ``launch()`` returns exactly ``<state_dir>/<hash>.sock``; a worker was listening there at the
           moment of the call's last successful probe / spawn readiness, and — if no worker died during the call —
           still is when the call returns;
@@ -122,8 +123,7 @@ class BWorld:
         self.timeouts = 0
         self.qjumps = 0
         self.last_q: Any = None
-        self.flag_set_legit: bool | None = None
-        self.flag_seen = False
+        self.flag_info: dict[str, Any] | None = None  # circumstances under which the shutdown flag was first set
         self.refused = 0
         self.exc: BaseException | None = None
 
@@ -179,9 +179,15 @@ class BWorld:
     def state(self) -> Any:
         self.note_cond()
         pk = self.peek()
-        if pk[1] and not self.flag_seen:
-            self.flag_seen = True
-            self.flag_set_legit = self.cond()[0]
+        if pk[1] and self.flag_info is None:
+            # first step after which the shutdown flag reads True: note the circumstances (classification only)
+            setters = [t for t in self.timers if t.running]
+            self.flag_info = {
+                "idle_condition_held": self.cond()[0],
+                "by_cancelled_timer": bool(setters) and all(t._cancelled for t in setters),
+                "conn_count": pk[0],
+                "accepted_unfinished": [c.cid for c in self.conns if c.accepted and not c.serve_returned],
+            }
         return (
             self.clk.now, tuple(c.cid for c in self.pending),
             tuple((c.accepted, c.serving, c.serve_returned, c.disconnected, c.tclosed) for c in self.conns),
@@ -292,7 +298,6 @@ class StubServer:
         c = transport.conn
         c.serves += 1
         c.serving = True
-        S.point("serve-start")
         if not c.disconnected:
             S.block(lambda: c.disconnected, "serve-wait")
         c.serving = False
@@ -308,13 +313,16 @@ class _Timer(S.CoopTimer):
 
         def callback(*a: Any, **k: Any) -> Any:
             w.epoch += 1
+            self.running = True
             try:
                 return inner(*a, **k)
             finally:
+                self.running = False
                 w.epoch += 1
 
         super().__init__(interval, callback, args, kwargs)
         self.inner = inner
+        self.running = False
         w.timers.append(self)
 
 
@@ -388,17 +396,16 @@ def make_setup_b(cfg: dict[str, Any]):
         s.spawn(main, "accept-loop")
 
         def client(i: int, hold: bool) -> None:
-            S.point(f"c{i}:connect")
+            # "quick": connect and close in one step (what the launcher's _probe does); "hold": connect, wait until
+            # the connection is being served, then disconnect
             if w.closed:
                 w.refused += 1
                 return
             c = Conn(len(w.conns), w)
             w.conns.append(c)
             w.pending.append(c)
-            S.point(f"c{i}:disconnect")
             if hold:
                 S.block(lambda: c.serving or w.closed, f"c{i}:await-service")
-                S.point(f"c{i}:disconnect2")
             c.disconnected = True
             c.disc_time = w.clk.now
 
@@ -428,16 +435,27 @@ def oracle_b(ctx: Ctx, cfg: dict[str, Any], x: S.Exec, tier: str) -> Any:
         if w.T is None:
             w.violate("b:exit-without-idle-timeout", "the accept loop ended by itself although idle_timeout is None")
         elif not w.cond_ok:
-            cause = "unclassified"
-            if w.flag_set_legit is True:
+            fi = w.flag_info
+            if w.accepts == 0:
+                cause = "startup-grace-not-elapsed"
+            elif fi is None:
+                cause = "unclassified"
+            elif (fi["conn_count"] or 0) > 0:
+                cause = "shutdown-flag-set-with-counted-connection"
+            elif fi["by_cancelled_timer"] and fi["accepted_unfinished"]:
+                cause = "accepted-connection-not-counted"  # the timer was cancelled for a connection that conn_count misses
+            elif fi["by_cancelled_timer"]:
+                cause = "stale-timer-callback"  # a cancelled / superseded timer's callback set the flag
+            elif fi["idle_condition_held"] or fi["accepted_unfinished"]:
+                # set while the loop was (or believed it was: a connection had just been returned by accept() and was
+                # not counted yet) idle, and still honoured after that connection was accepted
                 cause = "sticky-shutdown-flag"
-            elif w.flag_set_legit is False:
-                cause = "stale-timer-callback"
+            else:
+                cause = "idle-timer-too-short"
             w.violate(
                 f"b:early-exit:{cause}",
                 f"the accept loop stopped accepting although, throughout its exit window, {w.cond_detail or 'the idle condition did not hold'} "
-                f"(idle_timeout={w.T}; accepted {w.accepts} connection(s); shutdown flag was set when the idle condition "
-                f"{'held' if w.flag_set_legit else 'did not hold' if w.flag_set_legit is False else 'is unknown'})",
+                f"(idle_timeout={w.T}; accepted {w.accepts} connection(s); circumstances when the shutdown flag was set: {fi})",
             )
     if w.returned and not x.deadlock:
         for c in w.conns:
@@ -471,15 +489,15 @@ def configs_b(ctx: Ctx) -> list[dict[str, Any]]:
         add(100.0, [], [100.0])
         add(100.0, ["quick"], [100.0])
         add(100.0, ["hold"], [100.0])
-        add(100.0, ["hold"], [50.0, 50.0])
+        add(100.0, ["hold"], [50.0, 50.0], bound=1)
         add(100.0, ["quick"], [100.0, 100.0], bound=1)
-        add(100.0, ["hold", "quick"], [100.0], bound=1)
-        add(100.0, ["hold", "hold"], [100.0], bound=1, max_conn=1)
         add(10.0, ["hold"], [60.0])
         add(10.0, ["quick"], [10.0, 50.0], bound=1)
-        add(10.0, ["hold"], [5.0, 5.0])
-        add(None, ["hold", "quick"], [100.0])
-        add(100.0, ["hold"], [100.0], serve_raises=True)
+        add(10.0, ["hold"], [5.0, 5.0], bound=1)
+        add(None, ["hold", "quick"], [100.0], bound=1)
+        add(100.0, ["hold"], [100.0], bound=1, serve_raises=True)
+        add(100.0, ["quick", "quick"], [100.0], bound=0)
+        add(100.0, ["hold", "quick"], [100.0], bound=0, max_conn=1)
         add(100.0, ["quick"], [100.0], bound=1, trace=True)
         add(100.0, ["hold"], [], bound=1, trace=True)
         return out
@@ -488,16 +506,18 @@ def configs_b(ctx: Ctx) -> list[dict[str, Any]]:
             add(idle, [], clock)
             for cl in (["quick"], ["hold"]):
                 add(idle, cl, clock, bound=3 if len(clock) == 1 else 2)
-            for cl in (["hold", "quick"], ["hold", "hold"]):
-                add(idle, cl, clock, bound=2 if len(clock) == 1 else 1)
-                add(idle, cl, clock, bound=1, max_conn=1)
+        add(idle, ["quick", "quick"], clocks[0], bound=1)
+        add(idle, ["hold", "quick"], clocks[0], bound=1)
+        add(idle, ["hold", "quick"], clocks[0], bound=0, max_conn=1)
+        add(idle, ["hold", "hold"], clocks[0], bound=0)
+        add(idle, ["hold", "quick"], clocks[1], bound=0)
         add(idle, ["hold"], clocks[0], serve_raises=True)
-        add(idle, ["hold", "quick"], clocks[0], bound=1, serve_raises=True, max_conn=1)
+        add(idle, ["hold", "quick"], clocks[0], bound=0, serve_raises=True, max_conn=1)
         add(idle, ["quick"], clocks[0], bound=2, trace=True)
         add(idle, ["hold"], clocks[0], bound=2, trace=True)
         add(idle, ["hold", "quick"], [], bound=1, trace=True)
     add(None, ["hold", "quick"], [100.0])
-    add(None, ["hold", "hold"], [100.0], max_conn=1)
+    add(None, ["hold", "hold"], [100.0], bound=1, max_conn=1)
     return out
 
 
@@ -548,6 +568,18 @@ class AWorld:
         for p, n in by_path.items():
             if n > 1:
                 self.violate("a:two-live-workers", f"{n} live workers for {os.path.basename(p)}")
+        for x in self.workers:
+            if x.alive:
+                try:
+                    st = os.lstat(x.path)
+                    same = (st.st_dev, st.st_ino) == x.ident
+                except OSError:
+                    same = False
+                if not same:
+                    self.violate(
+                        "a:live-worker-socket-unlinked",
+                        f"the socket path {os.path.basename(x.path)} of a live, listening worker was unlinked or replaced (the worker is unreachable)",
+                    )
         try:
             files = tuple(sorted(os.listdir(self.dir)))
         except OSError:
@@ -721,6 +753,7 @@ def bound_launcher():
         c = w.cur()
         if c is not None:
             c["obs"].append(("probe", str(path), r, truth, w.s.nsteps))
+        S.point("probe-done")  # the answer may be stale by the time the caller acts on it
         return r
 
     def unlink_stale(path: Any) -> None:
@@ -865,19 +898,23 @@ def configs_a(ctx: Ctx) -> list[dict[str, Any]]:
         add([1, 2], init="crashed")
         add([1, 1, 1], bound=1)
         add([1, 1, 2], init="crashed", bound=1)
+        add([2, 1], init="crashed")
         add([1, 1], bound=1, trace=True)
         add([1, 2], init="crashed", bound=1, trace=True)
+        add([2, 1], init="crashed", bound=1, trace=True)
         return out
     for init in ("none", "live", "crashed"):
         add([1, 1], init=init, bound=3)
         for env in (["exit"], ["crash"], ["exit", "crash"]):
             add([1, 1], init=init, env=env)
         add([1, 2], init=init)
+        add([2, 1], init=init)
         add([1, 2], init=init, env=["crash"])
         add([1, 1, 1], init=init)
         add([1, 1, 2], init=init, env=["crash"], bound=1)
         add([1, 1], init=init, bound=2, trace=True)
         add([1, 2], init=init, env=["crash"], bound=1, trace=True)
+        add([2, 1], init=init, bound=1, trace=True)
         add([1, 1], init=init, env=["exit"], bound=1, trace=True)
     return out
 
